@@ -2,7 +2,7 @@
    tok_float / tok_int / pdg_valid / pdg_charge / usqrt are the oracles of DESIGN.md 4.4 (Python float(),
    int(), the `particle` package, numpy sqrt): universally quantified functions, no law assumed unless stated. *)
 From Coq Require Import List String ZArith QArith Qabs Bool Arith.
-From SX Require Import Lib.Strs Lib.StrLemmas Gen.GenParticleMap Model.Oscar Model.OscarDoc Model.Jetscape
+From SX Require Import Lib.Strs Lib.StrLemmas Lib.Split Gen.GenParticleMap Model.Oscar Model.OscarDoc Model.Jetscape
   Model.JetscapeDoc Proofs.C01_Oscar Proofs.C01_Columns Proofs.C01_Shapes Proofs.C01_Std Proofs.C01_Jetscape
   Proofs.C01_Derived Proofs.C01_Example.
 Import ListNotations.
@@ -121,3 +121,29 @@ Print Assumptions C01_jetscape_derived.
 Theorem C01_example : wf ex_tf ex_ti ex_pv ex_doc "Oscar2013" [].
 Proof. exact example_wf. Qed.
 Print Assumptions C01_example.
+
+(* character level -> token level.  A raw line is the join of its tokens with single blanks (plus the newline):
+   Python's split(" ") gives the tokens back; a blank-free pattern ("#", "event", "out", "end", "sigmaGen", "Event",
+   "weight", "N_hadrons", ...) occurs in the line iff it occurs inside a token; " p " occurs iff an inner token is p.
+   (The two remaining raw tests, "in " and " start", are tied to their token forms by the correspondence only.) *)
+Theorem C01_split_join :
+  forall c l, l <> [] -> forallb (no_char c) l = true -> split_on c (join c l) = l.
+Proof. exact split_join. Qed.
+Print Assumptions C01_split_join.
+
+Theorem C01_contains_join :
+  forall p, no_char sp p = true -> p <> EmptyString -> forall l, contains p (join sp l) = has p l.
+Proof. exact contains_join. Qed.
+Print Assumptions C01_contains_join.
+
+Theorem C01_contains_line :
+  forall p, no_char "010"%char p = true -> p <> EmptyString ->
+  forall x, contains p (x ++ String "010"%char EmptyString) = contains p x.
+Proof. exact contains_line. Qed.
+Print Assumptions C01_contains_line.
+
+Theorem C01_contains_word_join :
+  forall p, no_char sp p = true -> forall l, forallb (no_char sp) l = true ->
+  contains (word p) (join sp l) = has_mid p l.
+Proof. exact contains_word_join. Qed.
+Print Assumptions C01_contains_word_join.
